@@ -185,63 +185,63 @@ func observe(b []byte, exists bool) FileObs {
 
 const maxAttempts = 4
 
-// decode splits a projection into maximal pattern runs.  A new run is accepted only with a look-ahead of up to 8
-// matching bytes; a run that ran a few bytes into its successor by coincidence is cut back.
+// decode parses a projection as a concatenation of pattern runs, each starting at offset 0 of some attempt's
+// stream (longest run first, back-tracking on failure, failed offsets memoised).  What cannot be parsed that way is
+// reported as one run with Attempt -1.
 func decode(b []byte, errStream bool) []Run {
-	runs := []Run{}
-	matches := func(o, a, p, n int) bool {
-		for j := 0; j < n; j++ {
-			if o+j >= len(b) || b[o+j] != patByte(a, errStream, p+j) {
-				return false
-			}
+	failed := map[int]bool{}
+	var parse func(o int) ([]Run, bool)
+	parse = func(o int) ([]Run, bool) {
+		if o == len(b) {
+			return []Run{}, true
 		}
-		return true
-	}
-	o := 0
-	for o < len(b) {
-		if k := len(runs) - 1; k >= 0 && runs[k].Attempt >= 0 && b[o] == patByte(runs[k].Attempt, errStream, runs[k].Start+runs[k].Len) {
-			// extend as far as it goes
-			r := &runs[k]
-			for o < len(b) && b[o] == patByte(r.Attempt, errStream, r.Start+r.Len) {
-				r.Len++
-				o++
-			}
-			continue
+		if failed[o] {
+			return nil, false
 		}
-		found := false
-		for back := 0; back <= 3 && !found; back++ {
-			if back > 0 && (len(runs) == 0 || runs[len(runs)-1].Attempt < 0 || runs[len(runs)-1].Len <= back) {
-				break
+		for a := 0; a < maxAttempts; a++ {
+			l := 0
+			for o+l < len(b) && b[o+l] == patByte(a, errStream, l) {
+				l++
 			}
-			for a := 0; a < maxAttempts && !found; a++ {
-				look := min(8+back, len(b)-(o-back))
-				if matches(o-back, a, 0, look) {
-					if back > 0 {
-						runs[len(runs)-1].Len -= back
-					}
-					runs = append(runs, Run{Attempt: a, Start: 0, Len: 0})
-					o -= back
-					found = true
+			for n, tries := l, 0; n >= 1 && tries < 6; n, tries = n-1, tries+1 {
+				if rest, ok := parse(o + n); ok {
+					return append([]Run{{Attempt: a, Start: 0, Len: n}}, rest...), true
 				}
 			}
 		}
-		if found {
-			r := &runs[len(runs)-1]
-			for o < len(b) && b[o] == patByte(r.Attempt, errStream, r.Start+r.Len) {
-				r.Len++
-				o++
-			}
-			continue
-		}
-		// a run that does not start at 0 (unexpected), or garbage
-		if k := len(runs) - 1; k >= 0 && runs[k].Attempt == -1 {
-			runs[k].Len++
-		} else {
-			runs = append(runs, Run{Attempt: -1, Start: o, Len: 1})
-		}
-		o++
+		failed[o] = true
+		return nil, false
 	}
-	return runs
+	if rs, ok := parse(0); ok {
+		return rs
+	}
+	// longest parsable prefix, then garbage
+	best := 0
+	for o := range failed {
+		if o > best {
+			best = o
+		}
+	}
+	var rs []Run
+	o := 0
+	for o < best {
+		adv := false
+		for a := 0; a < maxAttempts && !adv; a++ {
+			l := 0
+			for o+l < best && b[o+l] == patByte(a, errStream, l) {
+				l++
+			}
+			if l > 0 && (o+l == best || !failed[o+l]) {
+				rs = append(rs, Run{Attempt: a, Start: 0, Len: l})
+				o += l
+				adv = true
+			}
+		}
+		if !adv {
+			break
+		}
+	}
+	return append(rs, Run{Attempt: -1, Start: o, Len: len(b) - o})
 }
 
 func observeFile(p string) FileObs {
